@@ -33,7 +33,7 @@ GrantRec(i, creds, d) == CallRec(i, Out(TRUE, ~creds, creds, {[k |-> "auth", db 
 TraceInit == /\ Init /\ role0 = "none" /\ l = 1 /\ bad = <<>>
 
 TReset == /\ Is("Reset") /\ Consume /\ UNCHANGED bad
-          /\ role0' = E.role /\ cur' = E.role /\ active' = TRUE
+          /\ role0' = E.role /\ cur' = E.role /\ curo' = E.other /\ tx' = NoTx /\ active' = TRUE
           /\ sess' = [i \in 1..NSess |-> NoSess]
           /\ nlog' = 0 /\ logins' = 0 /\ cached' = E.role /\ epoch' = 0 /\ last' = NoCall /\ steps' = 0 /\ hist' = <<>>
 
@@ -44,23 +44,28 @@ TOpenSession == /\ Is("OpenSession") /\ Consume
                         /\ Judge(GrantRec(0, TRUE, E.db))
                         /\ sess' = OpenSessionEffect(E.s, E.db)
                    ELSE UNCHANGED <<sess, bad>>
-                /\ UNCHANGED <<role0, cur, active, nlog, logins, cached, epoch, last, steps, hist>>
+                /\ UNCHANGED <<role0, cur, curo, tx, active, nlog, logins, cached, epoch, last, steps, hist>>
 TLogin == /\ Is("Login") /\ Consume
           /\ IF E.granted
              THEN /\ sess[E.s].st = "none"
                   /\ Judge(GrantRec(0, TRUE, "none"))
                   /\ sess' = LoginEffect(E.s) /\ nlog' = nlog + 1 /\ logins' = logins + 1 /\ cached' = cur
              ELSE UNCHANGED <<sess, bad, nlog, logins, cached>>
-          /\ UNCHANGED <<role0, cur, active, epoch, last, steps, hist>>
+          /\ UNCHANGED <<role0, cur, curo, tx, active, epoch, last, steps, hist>>
 TUseDatabase == /\ Is("UseDatabase") /\ Consume
                 /\ IF E.granted
                    THEN /\ Judge(GrantRec(E.s, FALSE, E.db))
                         /\ sess' = UseDatabaseEffect(E.s, E.db)
                    ELSE UNCHANGED <<sess, bad>>
-                /\ UNCHANGED <<role0, cur, active, nlog, logins, cached, epoch, last, steps, hist>>
+                /\ UNCHANGED <<role0, cur, curo, tx, active, nlog, logins, cached, epoch, last, steps, hist>>
 
 \* environment steps: the actions of Auth.tla
-TSetPermission == Is("SetPermission") /\ Consume /\ SetPermission(E.p) /\ UNCHANGED bad
+TSetPermission == Is("SetPermission") /\ Consume /\ E.db = "own" /\ SetPermission(E.p) /\ UNCHANGED bad
+\* the permission on the second database of a multi-database user (flows)
+TSetPermissionOther == /\ Is("SetPermission") /\ Consume /\ E.db = "other" /\ UNCHANGED bad
+                       /\ ~IsSys /\ active /\ E.p # curo
+                       /\ curo' = E.p /\ sess' = Invalidate("permissionChanged") /\ logins' = Dec /\ nlog' = 0
+                       /\ UNCHANGED <<role0, cur, tx, active, cached, epoch, last, steps, hist>>
 TDeactivate == Is("Deactivate") /\ Consume /\ Deactivate /\ UNCHANGED bad
 TActivate == Is("Activate") /\ Consume /\ Activate /\ UNCHANGED bad
 TExpire == Is("Expire") /\ Consume /\ Expire(E.s) /\ UNCHANGED bad
@@ -69,13 +74,13 @@ TLogout == Is("Logout") /\ Consume /\ Logout(E.s) /\ UNCHANGED bad
 \* a request: logged outcome, judged in the reconstructed state.  The logged slot state, selection and
 \* permissions must be the reconstructed ones (otherwise the trace is not a behaviour of this harness run)
 TCall == /\ Is("Call") /\ Consume
-         /\ Slot(E.s).st = E.sess /\ Slot(E.s).sel = E.sel /\ role0 = E.role /\ cur = E.cur /\ active = E.active
+         /\ Slot(E.s).st = E.sess /\ Slot(E.s).sel = E.sel /\ role0 = E.role /\ cur = E.cur /\ curo = E.curo /\ active = E.active
          /\ LET out == Out(E.ok, E.authreq, E.creds, SeqToSet(E.effs))
             IN /\ \A e \in out.effs : e \in Effects
                /\ Judge(CallRec(E.s, out))
                /\ CallLogged(E.s, out)
 
-TraceNext == TReset \/ TOpenSession \/ TLogin \/ TUseDatabase \/ TSetPermission \/ TDeactivate \/ TActivate
+TraceNext == TReset \/ TOpenSession \/ TLogin \/ TUseDatabase \/ TSetPermission \/ TSetPermissionOther \/ TDeactivate \/ TActivate
              \/ TExpire \/ TLogout \/ TCall
 TraceSpec == TraceInit /\ [][TraceNext]_tvars
 
